@@ -19,6 +19,23 @@ from ..common import CallGraph, table, call_matches, is_derive, site_in_derive, 
 from ..engine import Result, ok, finding, assumption, where
 from ..facts import BrokenCheck
 
+def _compile_body(F):
+    """Compiler::compile with the crate's own helper functions (inherent methods it may have been split into) inlined"""
+    f = F.fn("<tx3_cardano::Compiler as tx3_tir::compile::Compiler>::compile")
+    return mir.inline_calls(F, f, want=_CARDANO_HELPERS, depth=2)
+
+
+def _CARDANO_HELPERS(t, callee):
+    # inherent helpers of the Compiler and small private functions next to it; the compile_* / ops::* functions that other
+    # rules name stay calls
+    if callee["crate"] != "tx3_cardano" or callee.get("impl_trait") or callee.get("trait_default"):
+        return False
+    p = callee["path"]
+    if p.startswith("tx3_cardano::compile::") or p.startswith("tx3_cardano::ops::") or p.startswith("tx3_cardano::coercion::"):
+        return False
+    return len(callee["blocks"]) <= 200
+
+
 META = {
     "level": "other",
     "explanation": (
@@ -34,7 +51,7 @@ CO = "tx3_cardano::compile::"
 
 
 def s_hash(F, res):
-    f = F.fn("<tx3_cardano::Compiler as tx3_tir::compile::Compiler>::compile")
+    f = _compile_body(F)
     du = mir.DefUse(f)
     aggs = [(bi, s) for bi, si, s in mir.stmts(f) if s["rv"]["k"] == "agg" and s["rv"].get("adt") == "tx3_tir::compile::CompiledTx"]
     if not aggs:
